@@ -122,7 +122,10 @@ def _history(args):
     mutated = _args_unchanged(keep) if keep else []
     probe2 = copy.deepcopy(sess[names[-1]])
     r2 = S.run_session(probe2)
-    return {'first': summarise(r1), 'second': summarise(r2), 'mutated': mutated}
+    # ... and the objects handed to the FIRST call must still be untouched after the second call ran (a call must not keep
+    # working on an earlier call's argument objects)
+    later = [a for a in (_args_unchanged(keep) if keep else []) if a not in mutated]
+    return {'first': summarise(r1), 'second': summarise(r2), 'mutated': mutated, 'mutated_later': later}
 
 
 def dims(h, emb):
@@ -200,6 +203,12 @@ def run(ctx):
         probe = h[-1]
         ref = fresh[probe]['first']
         case = {'history': list(h), 'embedding': list(emb)}
+        if r.get('mutated_later'):
+            v = Violation('arguments-mutated', {'args': r['mutated_later'], 'by': 'a-later-call'}, case, 'the arguments of one research.backtest call were modified by the NEXT call: %s' % r['mutated_later'])
+            ctx.count('violation:' + v.clause)
+            if v.sigkey() not in sigs:
+                sigs.add(v.sigkey())
+                ctx.add(v)
         if r['mutated']:
             v = Violation('arguments-mutated', {'args': r['mutated']}, case, 'research.backtest modified its arguments: %s' % r['mutated'])
             if v.sigkey() not in sigs:
@@ -242,6 +251,8 @@ def replay(case, ctx):
     out = []
     if r['mutated']:
         out.append(Violation('arguments-mutated', {'args': r['mutated']}, case, 'arguments modified: %s' % r['mutated']))
+    if r.get('mutated_later'):
+        out.append(Violation('arguments-mutated', {'args': r['mutated_later'], 'by': 'a-later-call'}, case, 'arguments modified by the next call: %s' % r['mutated_later']))
     if diff_dims(r['first'], r['second']):
         out.append(Violation('not-repeatable', {'differing_dims': dims(h, emb)}, case, explain(r['first'], r['second'])))
     if len(h) > 1 and diff_dims(r['first'], r0['first']):
